@@ -164,8 +164,8 @@ class StateVector:
         t = np.moveaxis(self._tensor(), ax, 0)
         n0, n1 = np.linalg.norm(t[0]), np.linalg.norm(t[1])
         if min(n0, n1) > 1e-9:
-            # entangled or superposed: trace out by measuring (outcome with larger weight)
-            self.measure(label, 0 if n0 >= n1 else 1)
+            # entangled or superposed: trace out by measuring; outcome 0 whenever it is possible (never decided by rounding noise)
+            self.measure(label, 0)
             t = np.moveaxis(self._tensor(), ax, 0)
             n0, n1 = np.linalg.norm(t[0]), np.linalg.norm(t[1])
         rest = t[0] if n0 >= n1 else t[1]
